@@ -28,6 +28,7 @@ struct Conn {
   bool rst = false;                  // connection reset: recv/send fail, epoll reports ERR|HUP
   bool server_closed = false;
   std::deque<std::string> send_script;  // results of future send() calls
+  int recv_eintr = 0;                   // this many of the next recv() calls are interrupted (EINTR)
   long tx_bytes = 0;
   bool accepted = false;
   bool rx_cr = false;              // last delivered byte was CR (telnet newline may span two recv calls)
@@ -224,6 +225,7 @@ extern "C" ssize_t __wrap_recv(int fd, void *buf, size_t len, int flags) {
   Conn &c = conns[fds[fd].conn];
   advance_us(2);
   if (c.rst) { errno = ECONNRESET; ev("recv conn=%d rst", c.id); return -1; }
+  if (c.recv_eintr > 0) { c.recv_eintr--; errno = EINTR; S.stats["recv_eintr"]++; ev("recv conn=%d eintr", c.id); return -1; }   // interrupted before any byte was copied: the data is still there
   if (!c.in.empty()) {
     std::string &seg = c.in.front();
     size_t n = std::min(len, seg.size());
@@ -260,6 +262,8 @@ extern "C" ssize_t __wrap_send(int fd, const void *buf, size_t len, int flags) {
     if (r == "i") { errno = EINTR; S.stats["send_eintr"]++; ev("send conn=%d eintr", c.id); return -1; }
     if (r == "e") { errno = EPIPE; c.rst = true; S.stats["send_epipe"]++; ev("send conn=%d epipe", c.id); return -1; }
     if (r == "r") { errno = ECONNRESET; c.rst = true; S.stats["send_reset"]++; ev("send conn=%d reset", c.id); return -1; }
+    // the kernel is short of buffer space right now: nothing is wrong with the connection, a later send succeeds
+    if (r == "n") { errno = ENOBUFS; S.stats["send_enobufs"]++; ev("send conn=%d enobufs", c.id); return -1; }
     if (r[0] == 'p') { size_t k = (size_t)atol(r.c_str() + 1); if (k < 1) k = 1; if (k < n) { n = k; S.stats["send_partial"]++; } }
   }
   c.tx_bytes += (long)n;
@@ -410,6 +414,9 @@ static void do_step(const Step &st) {
     int cid = atoi(st.a[0].c_str());
     if (conns.count(cid))
       for (auto &r : split(st.a[1], ',')) if (!r.empty()) conns[cid].send_script.push_back(r);
+  } else if (op == "recvintr") {    // recvintr <conn> <k>: the next k recv() calls on the connection return EINTR
+    int cid = atoi(st.a[0].c_str());
+    if (conns.count(cid)) conns[cid].recv_eintr += atoi(st.a[1].c_str());
   } else if (op == "openwindow") {  // openwindow <conn>: forget the remaining scripted send results
     int cid = atoi(st.a[0].c_str());
     if (conns.count(cid)) conns[cid].send_script.clear();
